@@ -143,14 +143,16 @@ func (p *Pool) register() {
 }
 
 func (p *Pool) Get() any {
+	vsched.Wait(decision, "pool.get", nil) // a scheduling point in decision/fine mode
 	p.mu.Lock()
-	defer p.mu.Unlock()
 	p.register()
 	if n := len(p.items); n > 0 {
 		v := p.items[n-1]
 		p.items = p.items[:n-1]
+		p.mu.Unlock()
 		return v
 	}
+	p.mu.Unlock() // New may reach a scheduling point: never hold the real mutex across it
 	if p.New != nil {
 		return p.New()
 	}
@@ -158,8 +160,10 @@ func (p *Pool) Get() any {
 }
 
 func (p *Pool) Put(v any) {
+	vsched.Wait(decision, "pool.put", nil)
 	p.mu.Lock()
-	defer p.mu.Unlock()
 	p.register()
 	p.items = append(p.items, v)
+	p.mu.Unlock()
+	vsched.Wait(decision, "pool.put.done", nil) // the object is now visible to other threads
 }
